@@ -323,6 +323,7 @@ AUX = {
     "n1": ("n1", "!", ("str", "b")),
     "hn": ("hn", "", ("seq", ("ref", "c1"), ("ref", "n1"))),
     "sc": ("sc", "_", ("choice", ("str", "b"), ("ref", "x"))),
+    "sl": ("sl", "_", ("choice", ("str", "a"), ("str", "b"))),
     "sf": ("sf", "_", ("seq", ("ref", "x"), ("str", "!"))),
     "sg": ("sg", "_", ("seq", ("ref", "x"), ("ref", "sf"))),
     "pf": ("pf", "", ("seq", ("pushlit", "a"), ("str", "!"))),
@@ -381,6 +382,7 @@ KINDS: dict[str, tuple[Expr, bool]] = {
     "silentchoice": (("choice", S("ab"), ("ref", "sc")), False),
     "cmref": (("seq", ("ref", "COMMENT"), B), False),
     "wsref": (("seq", ("ref", "WHITESPACE"), B), False),
+    "silentlit": (("seq", ("choice", ("ref", "sl"), C, S("d")), ("opt", ("ref", "sl"))), False),
     "altsilentfail": (("choice", ("ref", "sf"), ("ref", "x")), False),
     "altsilentfail2": (("choice", ("ref", "sg"), ("seq", ("ref", "x"), ("ref", "x"))), False),
     "optsilentfail": (("seq", ("opt", ("ref", "sf")), ("ref", "x")), False),
@@ -572,6 +574,15 @@ def stack_family() -> list[dict[str, Any]]:
                     if not well_formed(rules):
                         continue
                     out.append({"id": f"stk/{on}.{inn}/{mn}/{tn}", "ctx": f"stk.{on}.{inn}", "kind": mn, "triv": tn, "rules": rules, "text": show_grammar(rules), "features": features(rules)})
+    # predicates applied directly to one stack terminal, then a tail that observes the stack
+    for tn, t in tails.items():
+        for mn, m in (("pop1", POP), ("drop1", DROP), ("popall", POPALL), ("pushlit", PA), ("peekall", PEEKALL)):
+            for pn, pred in (("and", "and"), ("notnot", "notnot")):
+                pe = ("and", m) if pred == "and" else ("not", ("not", m))
+                expr = ("seq", PUSHX, pe, t)
+                rules = [("r", "", expr)]
+                if well_formed(rules):
+                    out.append({"id": f"stk/{pn}bare/{mn}/{tn}", "ctx": f"stk.{pn}bare", "kind": mn, "triv": tn, "rules": rules, "text": show_grammar(rules), "features": features(rules)})
     # three snapshots deep
     deep = ("seq", PUSHX, ("choice", ("seq", PA, ("choice", ("seq", ("pushlit", "b"), ("opt", ("seq", DROP, DROP, DROP)), S("!")), ("seq", DROP, S("?"))), S("#")), PEEKALL))
     rules = [("r", "", deep)]
